@@ -5,6 +5,7 @@ mod ds;
 mod gen;
 mod iters;
 mod minimise;
+mod miri;
 mod pf;
 mod prng;
 mod qvb;
@@ -91,7 +92,82 @@ fn extra_engines(prop: &str, tier: Tier, seed: u64, planned: u64, first: &std::c
             Err(_) => ex.harness_errors.push("QSIM_BIN_NOPF is not set (run through /verif/check)".into()),
         }
     }
+    // ---- Miri engine (interpreter with seeded scheduler / RNG, data-race and UB detection)
+    let plan: Vec<(&str, u64, u32, &[&str], bool)> = match (prop, tier) {
+        // (mode, scenarios, interpreter seeds per scenario, pre-emption rates, also without the prefetch feature)
+        ("C18", Tier::Quick) => vec![("c18", 2, 8, &["0.1"], false)],
+        ("C18", Tier::Thorough) => vec![("c18", 8, 32, &["0.01", "0.1", "0.5"], false)],
+        ("C02", Tier::Thorough) => vec![("c02", 4, 32, &["0.01"], false)],
+        ("C03", Tier::Thorough) => vec![("c03", 4, 32, &["0.01"], false)],
+        ("C09", Tier::Thorough) => vec![("c09", 4, 8, &["0.01"], true)],
+        _ => vec![],
+    };
+    for (mode, scenarios, seeds, rates, also_nopf) in plan {
+        let r = miri::run_plan(prop, mode, seed, scenarios, seeds, rates, also_nopf);
+        ex.evaluations += r.executions;
+        ex.found.extend(r.found);
+        ex.harness_errors.extend(r.harness_errors);
+        ex.coverage.insert("miri".into(), r.coverage);
+    }
     ex
+}
+
+/// `qsim selfcheck determinism [props...]`: every run seed of a batch is executed in fresh processes at worker
+/// counts 1, 5 and 16, for several VERIF_SEED values; the per-run digests must be identical maps.
+fn selfcheck_determinism(props: &[String]) -> i32 {
+    let props: Vec<String> = if props.is_empty() { cases::CLAIMED.iter().map(|s| s.to_string()).collect() } else { props.to_vec() };
+    let runs: u64 = std::env::var("QSIM_RUNS").ok().and_then(|s| s.parse().ok()).unwrap_or(2000);
+    let seeds: Vec<u64> = std::env::var("QSIM_SEEDS")
+        .ok()
+        .map(|s| s.split(',').filter_map(|x| x.parse().ok()).collect())
+        .unwrap_or_else(|| vec![1, 2, 3]);
+    let mut report = serde_json::Map::new();
+    let mut bad = 0;
+    for prop in &props {
+        let mut per_prop = vec![];
+        for (pname, exe, _) in sup::profiles(prop) {
+            let total = if prop == "C18" { runs.min(60) } else { runs };
+            for &seed in &seeds {
+                let mut reference: Option<std::collections::BTreeMap<u64, u64>> = None;
+                let mut diverging = 0u64;
+                for workers in [1u64, 5, 16] {
+                    let br = sup::run_batch(&exe, prop, Tier::Quick, seed, total, workers);
+                    match &reference {
+                        None => reference = Some(br.digests),
+                        Some(r) => {
+                            for (k, v) in &br.digests {
+                                if r.get(k) != Some(v) {
+                                    diverging += 1;
+                                    if diverging <= 3 {
+                                        println!("DIVERGENCE property={prop} profile={pname} seed={seed} run={k} workers={workers}");
+                                    }
+                                }
+                            }
+                            if br.digests.len() != r.len() {
+                                diverging += 1;
+                            }
+                        }
+                    }
+                }
+                println!("determinism property={prop} profile={pname} VERIF_SEED={seed} runs={total} x workers{{1,5,16}} diverging={diverging}");
+                per_prop.push(serde_json::json!({"profile": pname, "seed": seed, "runs": total, "worker_counts": [1, 5, 16], "diverging_runs": diverging}));
+                if diverging > 0 {
+                    bad += 1;
+                }
+            }
+        }
+        report.insert(prop.clone(), serde_json::Value::Array(per_prop));
+    }
+    let path = sup::verif_dir().join("evidence").join("selfcheck_determinism.json");
+    let _ = std::fs::create_dir_all(path.parent().unwrap());
+    let _ = std::fs::write(&path, serde_json::to_string_pretty(&serde_json::Value::Object(report)).unwrap());
+    if bad > 0 {
+        println!("selfcheck determinism: FAILED ({bad} batches diverged)");
+        1
+    } else {
+        println!("selfcheck determinism: ok");
+        0
+    }
 }
 
 fn usage() -> i32 {
@@ -105,6 +181,7 @@ fn main() {
         std::process::exit(usage());
     }
     let code = match args[0].as_str() {
+        "selfcheck" if args.len() >= 2 && args[1] == "determinism" => selfcheck_determinism(&args[2..]),
         "worker" => sup::worker_main(&args[1..]),
         "one" => sup::one_main(&args[1..]),
         "replay" if args.len() == 2 => sup::replay_main(&args[1]),
